@@ -27,6 +27,7 @@ type fdesc struct {
 	Tag  []string `json:"tag"`
 	Mode string   `json:"mode"`
 	T    tdesc    `json:"t"`
+	Val  string   `json:"val"` // validate tag (Trace_Pack's random types)
 }
 type vdesc struct {
 	K   string          `json:"k"`
@@ -66,7 +67,11 @@ func buildTypeTag(t tdesc, key string) reflect.Type {
 			if f.Mode != "" {
 				tag += "," + f.Mode
 			}
-			fs[i] = reflect.StructField{Name: f.N, Type: buildTypeTag(f.T, key), Tag: reflect.StructTag(fmt.Sprintf(`%s:"%s"`, key, tag))}
+			stag := fmt.Sprintf(`%s:"%s"`, key, tag)
+			if f.Val != "" {
+				stag += fmt.Sprintf(` validate:"%s"`, f.Val)
+			}
+			fs[i] = reflect.StructField{Name: f.N, Type: buildTypeTag(f.T, key), Tag: reflect.StructTag(stag)}
 		}
 		return reflect.StructOf(fs)
 	}
@@ -200,6 +205,77 @@ func encodeVal(t tdesc, v reflect.Value) jm {
 		return jm{"k": "struct", "f": fs}
 	}
 	panic("encode " + t.K)
+}
+
+// sameFields: the field values of a struct passed to a failed Unpack are the previous ones.  What is held BY REFERENCE
+// (the entries of a map, the elements of a slice, what a pointer points to) may have been written to: there only the
+// identity-level facts are compared (nil-ness, length).
+func sameFields(t tdesc, a, b reflect.Value) bool {
+	switch t.K {
+	case "ptr":
+		return a.IsNil() == b.IsNil()
+	case "slice":
+		return a.IsNil() == b.IsNil() && a.Len() == b.Len()
+	case "map":
+		return a.IsNil() == b.IsNil()
+	case "array":
+		for i := 0; i < a.Len(); i++ {
+			if !sameFields(*t.E, a.Index(i), b.Index(i)) {
+				return false
+			}
+		}
+		return true
+	case "struct":
+		for i, f := range t.F {
+			if !sameFields(f.T, a.Field(i), b.Field(i)) {
+				return false
+			}
+		}
+		return true
+	}
+	return reflect.DeepEqual(a.Interface(), b.Interface())
+}
+
+// annotateSigns adds to every primitive value descriptor its sign ("sg": -1 / 0 / 1; strings: 0 = empty): TLC cannot
+// look into the decimal text, and the validators nonzero / required / positive need nothing else.
+func annotateSigns(v jm) {
+	switch v["k"] {
+	case "int", "dur", "uint", "float":
+		f, _ := strconv.ParseFloat(fmt.Sprint(v["v"]), 64)
+		switch {
+		case f < 0:
+			v["sg"] = -1
+		case f > 0:
+			v["sg"] = 1
+		default:
+			v["sg"] = 0
+		}
+	case "string":
+		if v["v"] == "" {
+			v["sg"] = 0
+		} else {
+			v["sg"] = 1
+		}
+	}
+	if p, ok := v["p"].(jm); ok {
+		annotateSigns(p)
+	}
+	for _, key := range []string{"xs", "f"} {
+		if l, ok := v[key].([]interface{}); ok {
+			for _, x := range l {
+				if m, ok := x.(jm); ok {
+					annotateSigns(m)
+				}
+			}
+		}
+	}
+	if m, ok := v["m"].(jm); ok {
+		for _, x := range m {
+			if mm, ok := x.(jm); ok {
+				annotateSigns(mm)
+			}
+		}
+	}
 }
 
 // hasInlineMap: the type holds an `,inline` map somewhere (open finding KF-28: not claimed by the frame events)
@@ -475,7 +551,17 @@ func (g *pgen) strct(depth int, top bool) jm {
 				tag = []string{g.name()}
 			}
 		}
-		fs = append(fs, jm{"n": fmt.Sprintf("F%d", i), "tag": tag, "mode": mode, "t": t})
+		// a validator on every fourth plain primitive field (C04): nonzero / required / positive need only the sign
+		val := ""
+		if k, _ := t["k"].(string); mode == "" && g.rng.Intn(4) == 0 {
+			switch {
+			case k == "string":
+				val = []string{"nonzero", "required"}[g.rng.Intn(2)]
+			case k == "dur" || strings.HasPrefix(k, "int") || strings.HasPrefix(k, "uint") || strings.HasPrefix(k, "float"):
+				val = []string{"nonzero", "required", "positive"}[g.rng.Intn(3)]
+			}
+		}
+		fs = append(fs, jm{"n": fmt.Sprintf("F%d", i), "tag": tag, "mode": mode, "t": t, "val": val})
 	}
 	return jm{"k": "struct", "f": fs}
 }
@@ -665,6 +751,7 @@ func packDrive(args []string) int {
 		if json.Unmarshal(tb, &ty) != nil || json.Unmarshal(vb, &val) != nil {
 			return 2
 		}
+		annotateSigns(valJ)
 		ev := jm{"ty": tyJ, "val": valJ}
 		var generic map[string]interface{}
 		var rt reflect.Type
@@ -694,6 +781,15 @@ func packDrive(args []string) int {
 		})
 		if panicked {
 			ev["tree"], ev["back"] = jm{"k": "nil"}, "panic: "+msg
+		}
+		// the class of the round trip (TLC does not look into texts)
+		switch b := fmt.Sprint(ev["back"]); {
+		case b == "same":
+			ev["backkind"] = "same"
+		case strings.HasPrefix(b, "typed-unpack: "):
+			ev["backkind"] = "unpack-error"
+		default:
+			ev["backkind"] = "other"
 		}
 		// a random setting of the packed configuration, replaced by a random faulty value
 		if ev["back"] == "same" && generic != nil {
@@ -734,14 +830,44 @@ func packDrive(args []string) int {
 				if ok {
 					opts := []ucfg.Option{sep, ucfg.VarExp, ucfg.MetaData(ucfg.Meta{Source: "trace.yml"})}
 					var o faultObs
+					untouched := true
+					// (a pre-filled value that does not validate together with the unfaulted configuration would fail for
+					// that reason, possibly before the injected fault is reached: such a value is not used)
+					pre := val
+					for try := 0; try < 6; try++ {
+						var cand vdesc
+						pb, _ := json.Marshal(g.val(tyJ))
+						if json.Unmarshal(pb, &cand) != nil {
+							continue
+						}
+						usable := false
+						guard(func() {
+							c0, err := ucfg.NewFrom(buildVal(ty, val, rt).Interface(), sep)
+							if err != nil {
+								return
+							}
+							t0 := reflect.New(rt)
+							t0.Elem().Set(buildVal(ty, cand, rt))
+							usable = c0.Unpack(t0.Interface(), sep) == nil
+						})
+						if usable {
+							pre = cand
+							break
+						}
+					}
 					panicked, msg := guard(func() {
 						cfg, err := ucfg.NewFrom(faulty, opts...)
 						if err != nil {
 							o = faultObs{Kind: "build", Msg: err.Error()}
 							return
 						}
-						if err := cfg.Unpack(reflect.New(rt).Interface(), opts...); err != nil {
+						// the target is pre-filled with ANOTHER random value of the type: after a FAILED Unpack it still holds its
+						// previous field values (C13; the contents of maps, slices and pointed-to values may differ)
+						target := reflect.New(rt)
+						target.Elem().Set(buildVal(ty, pre, rt))
+						if err := cfg.Unpack(target.Interface(), opts...); err != nil {
 							o = observeErr(err)
+							untouched = sameFields(ty, buildVal(ty, pre, rt), target.Elem())
 						} else {
 							o = faultObs{Kind: "ok"}
 						}
@@ -749,7 +875,8 @@ func packDrive(args []string) int {
 					if panicked {
 						o = faultObs{Kind: "panic", Msg: msg}
 					}
-					ev["fault"] = jm{"path": segs, "tree": ft, "obs": jm{"kind": o.Kind, "path": o.Path, "source": o.Source, "typed": o.Typed, "msg": o.Msg}}
+					ev["fault"] = jm{"path": segs, "tree": ft, "obs": jm{"kind": o.Kind, "path": o.Path, "source": o.Source, "typed": o.Typed, "msg": o.Msg,
+						"untouched": untouched}}
 				}
 			}
 		}
@@ -801,6 +928,11 @@ func packDrive(args []string) int {
 				// descriptors as the encoder writes them (number texts in one canonical spelling)
 				fr["old"] = encodeVal(ty, buildVal(ty, oldV, rt))
 				fr["new"] = encodeVal(ty, buildVal(ty, val, rt))
+				for _, key := range []string{"old", "new", "got"} {
+					if d, ok := fr[key].(jm); ok {
+						annotateSigns(d)
+					}
+				}
 				ev["frame"] = fr
 			}
 		}
